@@ -8,6 +8,7 @@ import Model.Batch
 import Model.Ctors
 import Model.Gens
 import Model.Nonce
+import Model.Lifecycle
 open Model Model.Wire
 
 /-- build the statement-side instance from generator basis ids -/
@@ -224,6 +225,18 @@ def cmdRnghist (m : List (String × String)) : Option String := do
   let hs := rngHistories ctx x (← bytes "A") lrs (← bytes "A1") (← bytes "B")
   pure s!"hists={"|".intercalate (hs.map (fun h => ",".intercalate ((h.drop ctx.length).map strOfEv)))}"
 
+def cmdLifecycle (m : List (String × String)) : Option String := do
+  let nat (k : String) : Option Nat := do (← get m k).toNat?
+  let fixed := (← nat "fixed") != 0
+  let seeded := (← nat "seeded") != 0
+  let mm ← nat "m"
+  let t ← nat "t"
+  let κ ← nat "rounds"
+  match (← get m "op") with
+  | "prove" => pure s!"unwiped={Lifecycle.unwiped (Lifecycle.proveBufs fixed seeded mm t κ)}"
+  | "recover" => pure s!"unwiped={if seeded then Lifecycle.unwiped (Lifecycle.recoverBufs fixed t κ) else 0}"
+  | _ => none
+
 def okerr (b : Bool) : String := if b then "ok" else "err"
 
 def cmdCtor (m : List (String × String)) : Option String := do
@@ -267,6 +280,7 @@ def step (line : String) : String :=
       | "noncekey" => cmdNoncekey m
       | "witnessbytes" => cmdWitnessbytes m
       | "rnghist" => cmdRnghist m
+      | "lifecycle" => cmdLifecycle m
       | _ => none
     match r with
     | some s => s
